@@ -38,6 +38,9 @@ thread_local! {
 
 /// Next record serial number (per thread).
 pub fn next_serial() -> i64 {
+    if global_on() {
+        return GLOBAL_SERIAL.fetch_add(1, std::sync::atomic::Ordering::SeqCst) + 1;
+    }
     SERIAL.with(|c| {
         c.set(c.get() + 1);
         c.get()
@@ -64,6 +67,9 @@ pub fn drain() -> Vec<Ev> {
 }
 
 fn record(name: &'static str, f: impl FnOnce() -> Vec<i64>) {
+    if global_on() {
+        return record_global(name, f);
+    }
     SINK.with(|s| {
         if let Some(v) = s.borrow_mut().as_mut() {
             let depth = DEPTH.with(|d| d.get());
@@ -113,4 +119,104 @@ pub struct Snapshot {
 /// Per-stream state machine (`proto/streams/state.rs`): façade with plain arguments.
 pub mod state {
     pub use crate::proto::{VerifError, VerifState};
+}
+
+/// Small integer naming an intrusive queue type of `proto::streams::stream` (`std::any::type_name` of the
+/// `store::Next` implementor): 1 NextSend, 2 NextSendCapacity, 3 NextAccept, 4 NextWindowUpdate, 5 NextOpen,
+/// 6 NextResetExpire, 0 unknown.
+pub fn queue_code(type_name: &str) -> i64 {
+    let short = type_name.rsplit("::").next().unwrap_or("");
+    match short {
+        "NextSend" => 1,
+        "NextSendCapacity" => 2,
+        "NextAccept" => 3,
+        "NextWindowUpdate" => 4,
+        "NextOpen" => 5,
+        "NextResetExpire" => 6,
+        _ => 0,
+    }
+}
+
+// ===== cross-thread event log (selected by `start_global`) =====
+//
+// While the global log is on, `enter`/`ev` of EVERY thread append to one mutex-protected,
+// sequence-numbered log instead of the thread-local sink, and record serial numbers come from one
+// global counter.  An event emitted while the library's stream-state mutex is held is appended
+// before that mutex is released, so the events of one lock-atomic section are contiguous among
+// the events emitted under the lock, and sections appear in lock-acquisition order.
+
+/// One entry of the global log.
+#[derive(Debug, Clone)]
+pub struct GlobalEv {
+    /// position in the global log (0, 1, 2, ...)
+    pub seq: u64,
+    /// tag of the emitting thread (`set_thread_tag`, 0 if never set)
+    pub thread: u32,
+    pub ev: Ev,
+}
+
+static GLOBAL_ON: std::sync::atomic::AtomicBool = std::sync::atomic::AtomicBool::new(false);
+static GLOBAL_SERIAL: std::sync::atomic::AtomicI64 = std::sync::atomic::AtomicI64::new(0);
+static GLOBAL_LOG: std::sync::Mutex<Vec<GlobalEv>> = std::sync::Mutex::new(Vec::new());
+
+thread_local! {
+    static THREAD_TAG: Cell<u32> = const { Cell::new(0) };
+}
+
+fn global_on() -> bool {
+    GLOBAL_ON.load(std::sync::atomic::Ordering::SeqCst)
+}
+
+fn record_global(name: &'static str, f: impl FnOnce() -> Vec<i64>) {
+    let depth = DEPTH.with(|d| d.get());
+    let thread = THREAD_TAG.with(|t| t.get());
+    let args = f();
+    let mut log = GLOBAL_LOG.lock().unwrap_or_else(|e| e.into_inner());
+    let seq = log.len() as u64;
+    log.push(GlobalEv {
+        seq,
+        thread,
+        ev: Ev { name, depth, args },
+    });
+}
+
+/// Tag the current thread (recorded with every event it emits into the global log).
+pub fn set_thread_tag(tag: u32) {
+    THREAD_TAG.with(|t| t.set(tag));
+    DEPTH.with(|d| d.set(0));
+}
+
+/// Switch every thread to the global log (clears it and restarts the serial numbers).
+pub fn start_global() {
+    GLOBAL_LOG.lock().unwrap_or_else(|e| e.into_inner()).clear();
+    GLOBAL_SERIAL.store(0, std::sync::atomic::Ordering::SeqCst);
+    GLOBAL_ON.store(true, std::sync::atomic::Ordering::SeqCst);
+}
+
+/// Back to the thread-local sinks.
+pub fn stop_global() {
+    GLOBAL_ON.store(false, std::sync::atomic::Ordering::SeqCst);
+}
+
+/// Take the global log.
+pub fn drain_global() -> Vec<GlobalEv> {
+    std::mem::take(&mut *GLOBAL_LOG.lock().unwrap_or_else(|e| e.into_inner()))
+}
+
+/// Append a harness-level marker (operation begin/end, transport activity) to the global log;
+/// returns its sequence number, or `None` while the global log is off.
+pub fn mark(name: &'static str, args: Vec<i64>) -> Option<u64> {
+    if !global_on() {
+        return None;
+    }
+    let depth = DEPTH.with(|d| d.get());
+    let thread = THREAD_TAG.with(|t| t.get());
+    let mut log = GLOBAL_LOG.lock().unwrap_or_else(|e| e.into_inner());
+    let seq = log.len() as u64;
+    log.push(GlobalEv {
+        seq,
+        thread,
+        ev: Ev { name, depth, args },
+    });
+    Some(seq)
 }
